@@ -34,5 +34,17 @@ for sj in sorted(glob.glob("/tmp/seedresults/*.suite.json")):
         "suite_passed": s["suite_passed"], "suite_failed_always_fail_list": s["suite_failed"], "suite_new_failures": []}
     if "checks" in old:
         meta["checks"] = old["checks"]
+    cj = "/tmp/seedresults/%s.check.json" % name
+    if os.path.exists(cj):
+        try:
+            c = json.load(open(cj))
+            for k, v in c.items():
+                if k.startswith("C") and isinstance(v, dict):
+                    meta.setdefault("checks", {})[k] = {
+                        "tier": "quick", "ran": "VERIF_GLUE_PATH=<scratch worktree with patch.diff applied> ./check %s --tier quick" % k,
+                        "result": "VIOLATION" if v["rc"] == 1 else ("held (MISSED)" if v["rc"] == 0 else "inconclusive"),
+                        "distinct_unlisted_signatures": v["n"], "first_signatures": [json.loads(x) for x in v["violations"][:2]]}
+        except Exception as e:
+            print("  (no check result: %r)" % (e,))
     json.dump(meta, open(dst + "/meta.json", "w"), indent=1)
     print(name, "imported")
